@@ -72,7 +72,18 @@ def run_script(drv, lines, workdir, tmpdir_mode=False, env=None, wrapper=None, c
     e = {"OVNI_TRACEDIR": tracedir}
     rr = RunResult()
     rr.tracedir = tracedir
-    if tmpdir_mode:
+    if tmpdir_mode == "same":
+        # OVNI_TMPDIR names the final directory itself
+        rr.tmpdir = tracedir
+        e["OVNI_TMPDIR"] = tracedir
+    elif tmpdir_mode == "alias":
+        # OVNI_TMPDIR is another name (a symbolic link) of the final directory
+        os.makedirs(tracedir, exist_ok=True)
+        rr.tmpdir = os.path.join(workdir, "tmp-alias")
+        if not os.path.islink(rr.tmpdir):
+            os.symlink(tracedir, rr.tmpdir)
+        e["OVNI_TMPDIR"] = rr.tmpdir
+    elif tmpdir_mode:
         rr.tmpdir = os.path.join(workdir, "tmp")
         os.makedirs(rr.tmpdir, exist_ok=True)
         e["OVNI_TMPDIR"] = rr.tmpdir
